@@ -166,6 +166,22 @@ type caseDesc struct {
 	Bad      string          `json:"not_supplied,omitempty"`
 	Detail   string          `json:"detail,omitempty"`
 	Err      string          `json:"err,omitempty"`
+	// a step of a sequence on ONE caching client: the whole sequence (to re-run it) and the position of this step
+	Seq  []seqStep `json:"seq,omitempty"`
+	Step int       `json:"step,omitempty"`
+}
+
+// one Get + Insert of a sequence
+type seqStep struct {
+	Sel   []string `json:"sel"`
+	Event bool     `json:"event"`
+}
+
+// session: the client shared by the steps of a sequence and what its caches hold
+type session struct {
+	c      *jrpc2.Client
+	url    string
+	cached map[string]bool // GHeaders / GBlocks segments fetched by earlier steps (same range)
 }
 
 type env struct {
@@ -218,7 +234,7 @@ func selectable(mode string, f *fieldDef) bool {
 	return true
 }
 
-func runCase(e *env, sel []string, withEvent bool) (caseDesc, string) {
+func runCase(e *env, sel []string, withEvent bool, ss *session) (caseDesc, string) {
 	mode := modeOf(sel, withEvent)
 	d := caseDesc{Mode: mode, Sel: sel, Supplied: map[string]bool{}}
 	ig := config.Integration{Name: igName, Enabled: true, Table: wpg.Table{Name: "c14"}}
@@ -245,6 +261,9 @@ func runCase(e *env, sel []string, withEvent bool) (caseDesc, string) {
 	e.node.KeepSent(true)
 	url := e.node.URL() + "/nocache"
 	c := jrpc2.New(url)
+	if ss != nil {
+		url, c = ss.url, ss.c
+	}
 	ctx := wctx.WithChainID(wctx.WithSrcName(context.Background(), srcName), chainID)
 	var blocks []eth.Block
 	conn := &fakeConn{}
@@ -269,6 +288,20 @@ func runCase(e *env, sel []string, withEvent bool) (caseDesc, string) {
 			seen["GLogs"] = true
 		case "traces":
 			seen["GTraces"] = true
+		}
+	}
+	if ss != nil {
+		// a segment an earlier step of the sequence fetched is served from the client's cache
+		if filter.UseBlocks && !seen["GBlocks"] && ss.cached["GBlocks"] {
+			seen["GBlocks"] = true
+		}
+		if !filter.UseBlocks && filter.UseHeaders && !seen["GHeaders"] && ss.cached["GHeaders"] {
+			seen["GHeaders"] = true
+		}
+		for _, k := range []string{"GBlocks", "GHeaders"} {
+			if seen[k] {
+				ss.cached[k] = true
+			}
 		}
 	}
 	if !seen["GBlocks"] && !seen["GHeaders"] {
@@ -391,7 +424,21 @@ func runCase(e *env, sel []string, withEvent bool) (caseDesc, string) {
 }
 
 func add(out *lib.Out, e *env, sel []string, withEvent bool, kind string) {
-	d, coq := runCase(e, sel, withEvent)
+	addStep(out, e, sel, withEvent, kind, nil, nil, 0)
+}
+
+// addSeq runs a sequence of integrations over the same range on ONE caching client
+func addSeq(out *lib.Out, e *env, seq []seqStep, kind string) {
+	url := e.node.URL() + "/cached"
+	ss := &session{c: jrpc2.New(url), url: url, cached: map[string]bool{}}
+	for i, st := range seq {
+		addStep(out, e, st.Sel, st.Event, kind, ss, seq, i)
+	}
+}
+
+func addStep(out *lib.Out, e *env, sel []string, withEvent bool, kind string, ss *session, seq []seqStep, step int) {
+	d, coq := runCase(e, sel, withEvent, ss)
+	d.Seq, d.Step = seq, step
 	if coq == "" {
 		coq = `CPlan MTx [] ["?"] [] []`
 	}
@@ -399,6 +446,13 @@ func add(out *lib.Out, e *env, sel []string, withEvent bool, kind string) {
 	msg := ""
 	if !ok {
 		msg = fmt.Sprintf("selected field %s is not stored with the node's value (%s) plan=%s requests=%v", d.Bad, d.Detail, d.Plan, d.Fetches)
+		if len(seq) > 0 {
+			var plans []string
+			for _, st := range seq[:step+1] {
+				plans = append(plans, fmt.Sprintf("%v/event=%v", st.Sel, st.Event))
+			}
+			msg += fmt.Sprintf(" -- step %d of a sequence on one caching client: %s", step+1, strings.Join(plans, " ; "))
+		}
 		if d.Err != "" {
 			msg = "indexing failed: " + d.Err
 		}
@@ -434,7 +488,7 @@ func runC14(cfg Cfg) error {
 	e := newEnv()
 	defer e.node.Close()
 	out := lib.NewOut("C14", cfg.Out, c14Header, "run", 100)
-	out.Rule = "dig.New(config.AddRequiredFields(sel)).Filter() -> jrpc2.Client.Get against the scripted node (every field of every item distinct and non-zero) -> Integration.Insert into a Go-level wpg.Conn capturing CopyFrom: every selectable field alone, ALL unordered pairs exhaustively, one representative set per subset of membership classes, random larger sets; without an event (transaction / trace rows) and with an event (log rows). Oracle: every stored column of every row equals the node's value for that item and the number of rows equals the number of items. Model-diff: required fields, requests seen by the node = dispatch(glf.New), observed supplied-matrix = Provides. non-trivial = at least one non-context field selected"
+	out.Rule = "dig.New(config.AddRequiredFields(sel)).Filter() -> jrpc2.Client.Get against the scripted node (every field of every item distinct and non-zero) -> Integration.Insert into a Go-level wpg.Conn capturing CopyFrom: every selectable field alone, ALL unordered pairs exhaustively, one representative set per subset of membership classes, random larger sets; without an event (transaction / trace rows) and with an event (log rows); 52 sequences of 2-3 integrations with different plans over the same range on ONE caching client (every ordered pair within the plans sharing the header cache and within those sharing the block cache, mixed triples). Oracle: every stored column of every row equals the node's value for that item and the number of rows equals the number of items. Model-diff: required fields, requests seen by the node = dispatch(glf.New), observed supplied-matrix = Provides. non-trivial = at least one non-context field selected"
 	if cfg.Replay != "" {
 		raw, err := os.ReadFile(cfg.Replay)
 		if err != nil {
@@ -452,7 +506,11 @@ func runC14(cfg Cfg) error {
 		if len(d.Sel) == 0 {
 			return fmt.Errorf("replay file has no failing input")
 		}
-		add(out, e, d.Sel, d.Mode == "log", "replay")
+		if len(d.Seq) > 0 {
+			addSeq(out, e, d.Seq, "replay-sequence")
+		} else {
+			add(out, e, d.Sel, d.Mode == "log", "replay")
+		}
 		return out.Flush()
 	}
 	rng := lib.NewRNG(cfg.Seed)
@@ -485,6 +543,42 @@ func runC14(cfg Cfg) error {
 			}
 		}
 	}
+	// sequences of integrations with different plans over the SAME range on ONE caching client: what an
+	// earlier Get attached to the shared cached blocks (hash-only transactions of logs()/traces(), receipts,
+	// traces) must not keep a later one from storing the node's values
+	hGroup := []seqStep{
+		{[]string{"block_time", "tx_hash", "log_addr"}, true},                                    // h,l
+		{[]string{"block_time", "tx_status", "tx_signer", "tx_to", "tx_type", "tx_hash"}, false}, // h,r
+		{[]string{"block_time", "tx_gas_used", "tx_to", "tx_type", "trace_action_from"}, false},  // h,r,t
+		{[]string{"block_time", "tx_contract_address", "tx_signer", "tx_to", "log_idx"}, true},   // h,r with an event
+		{[]string{"block_time", "block_hash", "tx_effective_gas_price", "tx_signer"}, false},     // h,r
+	}
+	bGroup := []seqStep{
+		{[]string{"tx_input", "tx_signer", "tx_to", "tx_type", "tx_gas_price"}, false},        // b
+		{[]string{"tx_value", "log_addr", "tx_to"}, true},                                     // l,b
+		{[]string{"tx_nonce", "tx_status", "tx_signer", "tx_type"}, false},                    // b,r
+		{[]string{"tx_input", "trace_action_to", "tx_signer"}, false},                         // b,t
+		{[]string{"tx_max_fee_per_gas", "tx_gas_used", "trace_action_value", "tx_to"}, false}, // b,r,t
+	}
+	nseq := 0
+	for _, g := range [][]seqStep{hGroup, bGroup} {
+		for i := range g {
+			for j := range g {
+				if i == j {
+					continue
+				}
+				addSeq(out, e, []seqStep{g[i], g[j]}, "sequence-2")
+				nseq++
+			}
+		}
+	}
+	for k := 0; k < 12; k++ { // triples, the two caches mixed in
+		a, b, c := hGroup[k%5], hGroup[(k+1+k/5)%5], bGroup[k%5]
+		order := [][]seqStep{{a, b, c}, {a, c, b}, {c, a, b}, {b, a, hGroup[(k+3)%5]}}[k%4]
+		addSeq(out, e, order, "sequence-3")
+		nseq++
+	}
+	out.Notes["sequences"] = nseq
 	// singles
 	for _, f := range names {
 		both([]*fieldDef{f}, "single")
